@@ -458,3 +458,15 @@ Proof.
   rewrite (g_index_z m 4) by lia. change (Z.to_nat 4) with 4%nat. cbn [rbind]. rewrite get_nthb by lia.
   f_equal. unfold wrap_u. change (2 ^ 8) with 256. pose proof (nthb_byte m 4 Hw). rewrite Z.mod_small by lia. reflexivity.
 Qed.
+
+(* ---- MTData2Packet.Data: everything behind the three header bytes ---- *)
+Theorem packet_data_agrees p :
+  g_MTData2Packet_Data p = match pkt_data p with Some d => Val d | None => Pan end.
+Proof.
+  unfold g_MTData2Packet_Data, pkt_data, g_slice, g_len.
+  destruct (Nat.leb_spec 3 (length p)) as [H|H].
+  - destruct (Z.ltb_spec 3 0); [lia|]. destruct (Z.ltb_spec (Z.of_nat (length p)) 3); [lia|].
+    destruct (Z.ltb_spec (Z.of_nat (length p)) (Z.of_nat (length p))); [lia|]. cbn [orb rbind]. f_equal.
+    change (Z.to_nat 3) with 3%nat. apply firstn_all2. rewrite skipn_length. lia.
+  - destruct (Z.ltb_spec 3 0); [lia|]. destruct (Z.ltb_spec (Z.of_nat (length p)) 3); [|lia]. cbn [orb]. reflexivity.
+Qed.
